@@ -54,13 +54,13 @@ Section Foreign.
     assert (Hvs : forall k', pv s k' = pv (w_st w) k') by (intro k'; apply pv_ext; reflexivity).
     destruct h as [r|d|tbl pl| | |u tbl pl|u tbl pl|c']; try discriminate Hlh.
     - (* a request of another client *)
-      cbn [wf_hop] in Hwf. destruct (wf_req_parts r Hwf) as (Hpl & Hcr & Hscr).
+      cbn [wf_hop] in Hwf. destruct (wf_req_parts r Hwf) as (Hpl & Hcr).
       pose proof (c01_wf_pjar r Hc01) as Hpj.
       rewrite (step_req_shape w r Hpl Hcr Hpj). cbv zeta. fold (prep w r).
       set (q := mkReq (jar_of (w_jars w) (rq_client r)) (rq_create r) (rq_addr r) (rq_ua r)).
       destruct (prep_Inv w g r HJ) as (HI1 & HG1).
       destruct (req_body (prep w r) q (rq_script r)) as [[[[[s3 rc] st0] sr] fin] cks] eqn:Hrb.
-      destruct (req_body_pv (prep w r) q (rq_script r) s3 rc st0 sr fin cks HI1 HG1 (jar_hyp w g r HJ) Hscr Hrb) as (Pk & _).
+      destruct (req_body_pv (prep w r) q (rq_script r) s3 rc st0 sr fin cks HI1 HG1 (jar_hyp w g r HJ) Hrb) as (Pk & _).
       cbn [fst w_st].
       assert (Hne : CKey k <> q_cookie q).
       { cbn. intro E. cbn [LiveHist6.is_own] in Hown. rewrite Hpj, Bool.andb_true_r in Hown.
@@ -112,12 +112,12 @@ Section Foreign.
     ob_start (snd (step w (HReq r))) = Some x -> ob_jar (snd (step w (HReq r))) = CKey k' ->
     peer_ok n b (rq_addr r) (rq_ua r) (w_st (fst (step w (HReq r)))) k'.
   Proof.
-    intros HJ HW Hwf Hpj Hn Hb. destruct (wf_req_parts r Hwf) as (Hpl & Hcr & Hscr).
+    intros HJ HW Hwf Hpj Hn Hb. destruct (wf_req_parts r Hwf) as (Hpl & Hcr).
     rewrite (step_req_shape w r Hpl Hcr Hpj). cbv zeta. fold (prep w r).
     set (q := mkReq (jar_of (w_jars w) (rq_client r)) (rq_create r) (rq_addr r) (rq_ua r)).
     destruct (prep_Inv w g r HJ) as (HI1 & HG1).
     destruct (req_body (prep w r) q (rq_script r)) as [[[[[s3 rc] st0] sr] fin] cks] eqn:Hrb.
-    destruct (req_body_pv (prep w r) q (rq_script r) s3 rc st0 sr fin cks HI1 HG1 (jar_hyp w g r HJ) Hscr Hrb) as (_ & Po).
+    destruct (req_body_pv (prep w r) q (rq_script r) s3 rc st0 sr fin cks HI1 HG1 (jar_hyp w g r HJ) Hrb) as (_ & Po).
     cbn [fst snd w_st mk_obs ob_start ob_jar]. intros Hst Hjar'.
     apply peer_ok_pv. intros p Hp.
     assert (E3 : pv (set_tb (set_plan s3 []) []) k' = pv s3 k') by (apply pv_ext; reflexivity).
